@@ -185,7 +185,9 @@ func cmdCheck(args []string) int {
 		}
 	}
 	if len(retry) > 0 && len(retry) <= 10 {
+		retrySeeds = true
 		solveAll(P, retry, 2*timeout, all, 1)
+		retrySeeds = false
 	}
 
 	known, fixedList := loadKnown(filepath.Join(*verif, "known_findings.txt"))
